@@ -3,6 +3,7 @@ package engine
 import (
 	"fmt"
 	"go/types"
+	"os"
 
 	"golang.org/x/tools/go/ssa"
 )
@@ -59,7 +60,11 @@ func init() {
 		return m.S.Const(64, uint64(m.Choose(n, "choose")))
 	})
 	reg("verifTry", func(m *Machine, fn *ssa.Function, a []Value) Value {
-		return m.S.Bool(m.Try(func() { m.CallClosure(a[0].(*Closure), nil) }) != nil)
+		gp := m.Try(func() { m.CallClosure(a[0].(*Closure), nil) })
+		if gp != nil && os.Getenv("VERIF_DEBUG") != "" {
+			fmt.Fprintln(os.Stderr, "verifTry caught:", gp.Msg)
+		}
+		return m.S.Bool(gp != nil)
 	})
 	reg("verifDeadlocks", func(m *Machine, fn *ssa.Function, a []Value) Value {
 		dead := false
